@@ -35,6 +35,9 @@ pub(crate) struct Chans {
 
 #[cfg(kani)]
 pub(crate) fn mk_pool(fx: &Fix) -> (PoolImpl, Chans) {
+    // effective capacities of the parent-ready stand-in lists (a stated bound): 2 certified
+    // blocks per slot, 4 ready parents per window, 4 announcements per call
+    crate::c07_coll::set_caps(2, 4, 4);
     let (etx, events) = crate::verif_coll::chan::channel::<PoolEvent>();
     let (rtx, repairs) = crate::verif_coll::chan::channel::<BlockId>();
     (PoolImpl::new(fx.epoch.clone(), etx, rtx), Chans { events, repairs })
@@ -72,4 +75,9 @@ impl Chans {
 /// (genuine signature), under Kani wrapped directly (signature checks are C09).
 pub(crate) fn validated(fx: &Fix, vote: Vote) -> ValidatedVote {
     crate::consensus::validated_vote::kani_vv::trusted(vote, fx.epoch.epoch_info())
+}
+
+/// A certificate that has passed validation (see `kani_vc::trusted`).
+pub(crate) fn validated_cert(fx: &Fix, cert: Cert) -> ValidatedCert {
+    crate::consensus::validated_cert::kani_vc::trusted(cert, fx.epoch.epoch_info())
 }
